@@ -109,6 +109,166 @@ Definition parse_path_all (ts : toks) : outcome toks :=
   | _ => Err E_syn
   end.
 
+(** ** syn::Expr::parse, as compiled WITHOUT syn's "full" feature (educe does
+    not enable it: expr.rs, cfg(not(feature = "full")) versions of
+    ambiguous_expr / unary_expr / trailer_expr / atom_expr).
+
+    Printing a parsed expression reproduces its tokens, so only a recogniser
+    is needed: [expr_all ts] = Ok iff the whole of [ts] is one expression,
+    Err E_syn iff the parser fails or stops early, OutOfDomain for token
+    material outside the modelled sub-grammar:
+
+      expr    ::= unary (binop unary)*                 binop in + - * / % ^ &
+      unary   ::= (- | ! | * | &)* trailer
+      trailer ::= atom ( (args) | [expr] | .ident | .ident(args) )*
+      atom    ::= literal | path | path!group | path { ident [: expr], .. }
+                | () | (expr) | (expr, ..) | { expr }
+    Not modelled (OutOfDomain): `<` `>` `=` `|` `..` `?` `#` `as` casts,
+    lifetimes, keywords other than self/Self/super/crate/true/false, tuple
+    indices, turbofish. *)
+Fixpoint tt_size (t : tt) : nat :=
+  match t with
+  | TGroup _ ts => S ((fix go (l : list tt) : nat :=
+                         match l with [] => 0 | x :: r => tt_size x + go r end) ts)
+  | _ => 1
+  end.
+Definition toks_size (ts : toks) : nat := fold_right (fun t n => tt_size t + n) 0 ts.
+
+Definition expr_punct_ok (s : string) : bool :=
+  mem_str s ["::"; "-"; "!"; "*"; "&"; "+"; "/"; "%"; "^"; "."; ","; ":"].
+Definition expr_ident_ok (s : string) : bool :=
+  negb (is_keyword s) || mem_str s path_kw || mem_str s ["true"; "false"].
+(** every token of the list (deep) belongs to the modelled material; the
+    content of a macro invocation's group (`ident ! group`) is never parsed and
+    is exempt.  [st]: 1 = the previous token is an identifier, 2 = identifier
+    then `!`. *)
+Fixpoint expr_tok_ok (t : tt) : bool :=
+  match t with
+  | TIdent s => expr_ident_ok s
+  | TPunct s => expr_punct_ok s
+  | TLife _ => false
+  | TLit _ _ => true
+  | TStr _ _ _ => true
+  | TGroup _ ts =>
+      (fix go (st : nat) (l : list tt) : bool :=
+         match l with
+         | [] => true
+         | x :: r =>
+             (match x with
+              | TGroup _ _ => if Nat.eqb st 2 then true else expr_tok_ok x
+              | _ => expr_tok_ok x
+              end)
+             && go (match x with
+                    | TIdent _ => 1
+                    | TPunct "!" => if Nat.eqb st 1 then 2 else 0
+                    | _ => 0
+                    end) r
+         end) 0 ts
+  end.
+Definition expr_toks_ok (ts : toks) : bool := expr_tok_ok (TGroup Paren ts).
+
+Definition is_prefix_op (t : tt) : bool :=
+  is_punct "-" t || is_punct "!" t || is_punct "*" t || is_punct "&" t.
+Definition is_binary_op (t : tt) : bool :=
+  is_punct "+" t || is_punct "-" t || is_punct "*" t || is_punct "/" t ||
+  is_punct "%" t || is_punct "^" t || is_punct "&" t.
+
+(** top-level comma splitting (same function as [split_commas] below, which is
+    defined after [classify_value]) *)
+Fixpoint expr_split_commas (ts : toks) : list toks :=
+  match ts with
+  | [] => [[]]
+  | t :: r =>
+      if is_punct "," t then [] :: expr_split_commas r
+      else match expr_split_commas r with
+           | c :: cs => (t :: c) :: cs
+           | [] => [[t]]
+           end
+  end.
+
+Definition drop_trailing_empty (cs : list toks) : list toks :=
+  if is_nil (last cs []) then removelast cs else cs.
+
+Definition ood_expr {A} : outcome A := OutOfDomain "expression".
+
+(** [operand] = true: an operand (unary expression) is expected next;
+    false: just after an operand (trailer loop, then binary operators). *)
+Fixpoint expr_scan (fuel : nat) (operand : bool) (ts : toks) : outcome unit :=
+  match fuel with
+  | 0 => ood_expr
+  | S f =>
+      (* Punctuated<Expr, ,>::parse_terminated / paren_or_tuple on a group's content *)
+      let expr_list (inner : toks) : outcome unit :=
+        if is_nil inner then Ok Datatypes.tt
+        else let* _ := mapM (expr_scan f true) (drop_trailing_empty (expr_split_commas inner)) in
+             Ok Datatypes.tt in
+      (* expr_struct_helper: fields `ident` / `ident: expr` *)
+      let struct_field (c : toks) : outcome unit :=
+        match c with
+        | [TIdent s] => if is_keyword s then ood_expr else Ok Datatypes.tt
+        | TIdent s :: TPunct ":" :: e => if is_keyword s then ood_expr else expr_scan f true e
+        | _ => ood_expr
+        end in
+      let struct_body (inner : toks) : outcome unit :=
+        if is_nil inner then Ok Datatypes.tt
+        else let* _ := mapM struct_field (drop_trailing_empty (expr_split_commas inner)) in
+             Ok Datatypes.tt in
+      if operand then
+        match ts with
+        | [] => Err E_syn                                   (* expected an expression *)
+        | t :: r =>
+            if is_lit_tok t then expr_scan f false r
+            else if is_prefix_op t then expr_scan f true r
+            else
+              match t with
+              | TPunct "::" | TIdent _ =>
+                  let body := match t with TIdent _ => ts | _ => r end in
+                  match path_segs mod_seg_ok body with
+                  | None => Err E_syn
+                  | Some (_, rest) =>
+                      match rest with
+                      | TPunct "!" :: rest1 =>               (* macro invocation *)
+                          match rest1 with
+                          | TGroup _ _ :: rest2 => expr_scan f false rest2
+                          | _ => Err E_syn
+                          end
+                      | TGroup Brace inner :: rest1 =>       (* struct literal *)
+                          let* _ := struct_body inner in expr_scan f false rest1
+                      | _ => expr_scan f false rest
+                      end
+                  end
+              | TGroup Paren inner => let* _ := expr_list inner in expr_scan f false r
+              | TGroup Brace inner =>                        (* Expr::Verbatim block *)
+                  let* _ := expr_scan f true inner in expr_scan f false r
+              | _ => Err E_syn                               (* unsupported expression *)
+              end
+        end
+      else
+        match ts with
+        | [] => Ok Datatypes.tt
+        | t :: r =>
+            match t with
+            | TGroup Paren inner => let* _ := expr_list inner in expr_scan f false r
+            | TGroup Bracket inner => let* _ := expr_scan f true inner in expr_scan f false r
+            | TPunct "." =>
+                match r with
+                | TIdent s :: r1 =>
+                    if is_keyword s then ood_expr else
+                    match r1 with
+                    | TPunct "::" :: _ => ood_expr
+                    | TGroup Paren inner :: r2 => let* _ := expr_list inner in expr_scan f false r2
+                    | _ => expr_scan f false r1
+                    end
+                | _ => ood_expr
+                end
+            | _ => if is_binary_op t then expr_scan f true r else Err E_syn
+            end
+        end
+  end.
+
+Definition expr_all (ts : toks) : outcome unit :=
+  if expr_toks_ok ts then expr_scan (2 * toks_size ts + 2) true ts else ood_expr.
+
 (** ** name-value expressions *)
 Definition classify_value (last : bool) (v : toks) : outcome nvexpr :=
   match v with
@@ -121,27 +281,17 @@ Definition classify_value (last : bool) (v : toks) : outcome nvexpr :=
                (* a lone keyword (or `_`) is not an expression for syn without "full" *)
                match t with
                | TIdent _ => Err E_syn
-               | _ => OutOfDomain "name-value expression"
+               | _ => let* _ := expr_all v in Ok (XOther v)
                end
            end
   | [TPunct "-"; t] =>
       if is_num_lit t then Ok (if last then XNegLit t else XUnaryNeg t)
-      else if is_lit_tok t then Ok (XOther v)       (* Expr::Unary(Neg, Expr::Lit(non-numeric)) *)
-      else match t with
-           | TIdent s => if path_seg_ok s then Ok (XOther v)   (* Expr::Unary(Neg, Expr::Path) *)
-                         else OutOfDomain "name-value expression"
-           | _ => OutOfDomain "name-value expression"
-           end
+      else let* _ := expr_all v in Ok (XOther v)
   | _ =>
       if has_angle v then OutOfDomain "name-value expression" else
       match parse_path_all v with
       | Ok p => Ok (XPath p)
-      | _ =>
-          let body := match v with TPunct "::" :: r => r | _ => v end in
-          match path_segs path_seg_ok body with
-          | Some (_, [TGroup Paren _]) => Ok (XOther v)
-          | _ => OutOfDomain "name-value expression"
-          end
+      | _ => let* _ := expr_all v in Ok (XOther v)
       end
   end.
 
@@ -419,4 +569,89 @@ Definition parse_unsafe_metas (ts : toks) : outcome (bool * list meta) :=
       end
   | [] => Ok (false, [])
   | _ => let* ms := parse_metas ts in Ok (false, ms)
+  end.
+
+(** ** common/expr.rs *)
+(** parse_args::<Expr>() on the argument tokens of `expression(..)`: a lone
+    literal is [Expr::Lit]; `-1` is a unary minus here (no negative-literal
+    shortcut as in the name-value parser). *)
+Definition args_expr (ts : toks) : outcome nvexpr :=
+  match ts with
+  | [t] => if is_lit_tok t then Ok (XLit t)
+           else let* _ := expr_all ts in Ok (XOther ts)
+  | _ => let* _ := expr_all ts in Ok (XOther ts)
+  end.
+
+Definition meta_2_expr (m : meta) : outcome nvexpr :=
+  match m with
+  | MNameValue _ v => Ok v
+  | MList _ _ ts => args_expr ts
+  | MPath _ => Err E_syn
+  end.
+
+(** the tokens `quote!(#expr)` prints for a classified expression *)
+Definition nvexpr_toks (v : nvexpr) : toks :=
+  match v with
+  | XLit t => [t]
+  | XNegLit t => [TPunct "-"; t]      (* the fallback TokenStream splits a negative literal *)
+  | XUnaryNeg t => [TPunct "-"; t]
+  | XPath p => p
+  | XOther ts => ts
+  end.
+
+Definition int_types : list string :=
+  ["u8"; "u16"; "u32"; "u64"; "u128"; "usize"; "i8"; "i16"; "i32"; "i64"; "i128"; "isize"].
+Definition float_types : list string := ["f32"; "f64"].
+
+(** `Type::Path` whose token string can equal a bare name: a single identifier *)
+Definition ty_ident (ty : toks) : option string :=
+  match ty with [TIdent s] => Some s | _ => None end.
+Definition ty_ident_is (ty : toks) (names : list string) : bool :=
+  match ty_ident ty with Some s => mem_str s names | None => false end.
+(** `Type::Reference`: the tokens of its element type *)
+Definition ty_ref_elem (ty : toks) : option toks :=
+  match ty with
+  | TPunct "&" :: r =>
+      let r1 := match r with TLife _ :: r' => r' | _ => r end in
+      Some (match r1 with TIdent "mut" :: r' => r' | _ => r1 end)
+  | _ => None
+  end.
+
+(** auto_adjust_expr, the test "don't call into": the literal [t] is of the
+    natural kind of the field type [ty] *)
+Definition lit_natural (t : tt) (ty : toks) : bool :=
+  match t with
+  | TLit (LKInt _ suffix) _ =>
+      match ty_ident ty with
+      | Some s => String.eqb suffix s || mem_str s int_types
+      | None => false
+      end
+  | TLit (LKFloat suffix) _ =>
+      match ty_ident ty with
+      | Some s => String.eqb suffix s || mem_str s float_types
+      | None => false
+      end
+  | TStr _ _ _ =>
+      match ty_ref_elem ty with
+      | Some e => ty_ident_is e ["str"]
+      | None => false
+      end
+  | TIdent _ => ty_ident_is ty ["bool"]          (* Lit::Bool *)
+  | TLit LKChar _ => ty_ident_is ty ["char"]
+  | TLit LKByte _ => ty_ident_is ty ["u8"]
+  | TLit LKByteStr _ =>
+      match ty_ref_elem ty with
+      | Some [TGroup Bracket (TIdent "u8" :: TPunct ";" :: _)] => true
+      | _ => false
+      end
+  | _ => false                                   (* C-string literals *)
+  end.
+
+(** [Some tokens] = the expression is a bare literal that must be wrapped in
+    `::core::convert::Into::into(..)`; [None] = spliced as written *)
+Definition needs_into (v : nvexpr) (ty : option toks) : bool :=
+  match v with
+  | XLit t | XNegLit t =>
+      match ty with Some ty => negb (lit_natural t ty) | None => true end
+  | _ => false
   end.
